@@ -421,7 +421,41 @@ func Store(arr, idx, v *Term) *Term {
 // ConstArray is ((as const (Array K V)) v).
 func ConstArray(s *Sort, v *Term) *Term { return &Term{Op: "constarr", Sort: s, Args: []*Term{v}} }
 
+// cleanPats drops triggers that SMT solvers reject (boolean connectives, ite, arithmetic-only terms).
+func cleanPats(pats [][]*Term) [][]*Term {
+	var out [][]*Term
+	for _, p := range pats {
+		ok := len(p) > 0
+		for _, t := range p {
+			if !validTrigger(t, true) {
+				ok = false
+			}
+		}
+		if ok {
+			out = append(out, p)
+		}
+	}
+	return out
+}
+
+func validTrigger(t *Term, top bool) bool {
+	switch t.Op {
+	case "and", "or", "not", "=>", "ite", "=", "distinct", "<", "<=", ">", ">=", "forall", "exists":
+		return false
+	}
+	if top && t.Op != "select" && t.Op != "app" {
+		return false
+	}
+	for _, a := range t.Args {
+		if !validTrigger(a, false) {
+			return false
+		}
+	}
+	return true
+}
+
 func Forall(bound []*Term, body *Term, pats ...[]*Term) *Term {
+	pats = cleanPats(pats)
 	if body.IsTrue() {
 		return True
 	}
@@ -431,6 +465,7 @@ func Forall(bound []*Term, body *Term, pats ...[]*Term) *Term {
 	return &Term{Op: "forall", Bound: bound, Args: []*Term{body}, Sort: BoolSort, Pats: pats}
 }
 func Exists(bound []*Term, body *Term, pats ...[]*Term) *Term {
+	pats = cleanPats(pats)
 	if body.IsFalse() {
 		return False
 	}
